@@ -80,7 +80,7 @@ EndRules(s, acc) ==
       wb == WBits(s.hist_bits)
       dictUsed == s.dict
   IN IF s.end.why = "fault" THEN [viol |-> acc.viol \cup {<<n, "C05-memory-fault-in-call">>}, stats |-> [nblocks |-> 0, match |-> FALSE, types |-> <<>>]]
-     ELSE IF s.end.why = "cap" THEN [viol |-> acc.viol \cup {<<n, "D10-did-not-terminate-within-call-cap">>}, stats |-> [nblocks |-> 0, match |-> FALSE, types |-> <<>>]]
+     ELSE IF s.end.why \in {"cap", "stalled"} THEN [viol |-> acc.viol \cup {<<n, "D10-did-not-terminate-" \o s.end.why>>}, stats |-> [nblocks |-> 0, match |-> FALSE, types |-> <<>>]]
      ELSE IF s.end.why # "end" THEN [viol |-> acc.viol, stats |-> [nblocks |-> 0, match |-> FALSE, types |-> <<>>]]
      ELSE IF Len(s.dict_points) > 0 THEN
      \* D12: a dictionary installed after a completed FULL flush: the stream up to that point decodes on its own to the input
